@@ -400,4 +400,388 @@ theorem marked_eq_length (t : Node) : t.marked = t.entries.length := by
   | node c d l m r ihl ihm ihr =>
     simp only [Node.marked, Node.entries, List.length_append, List.length_map, ihl, ihm, ihr]
     cases d <;> simp <;> omega
+
+/-! ### invariants under pure insertion -/
+
+@[simp] theorem Node.isNil_iff (t : Node) : t.isNil = true ↔ t = .nil := by cases t <;> simp [Node.isNil]
+
+theorem mkChain_ne_nil (e : Entry) (ks : Key) : mkChain e ks ≠ .nil := by
+  cases ks with
+  | nil => simp [mkChain]
+  | cons x xs => cases xs <;> simp [mkChain]
+
+theorem insPure_ne_nil (e : Entry) (t : Node) (ks : Key) : t.insPure cmp e ks ≠ .nil := by
+  cases t with
+  | nil => simp only [Node.insPure]; exact mkChain_ne_nil e ks
+  | node c d l m r =>
+    cases ks with
+    | nil => simp [Node.insPure]
+    | cons x xs =>
+      simp only [Node.insPure]
+      cases cmp x c <;> simp only []
+      · simp
+      · cases xs <;> simp
+      · simp
+
+theorem heads_mkChain (e : Entry) (x : Nat) (xs : Key) : (mkChain e (x :: xs)).heads = [x] := by
+  cases xs <;> simp [mkChain, Node.heads]
+
+theorem heads_insPure (e : Entry) (t : Node) (x : Nat) (xs : Key) :
+    ∀ a ∈ (t.insPure cmp e (x :: xs)).heads, a = x ∨ a ∈ t.heads := by
+  induction t with
+  | nil => simp [Node.insPure, heads_mkChain]
+  | node c d l m r ihl ihm ihr =>
+    simp only [Node.insPure]
+    cases cmp x c <;> simp only []
+    · intro a ha
+      simp only [Node.heads, List.mem_cons, List.mem_append] at ha ⊢
+      rcases ha with ha | ha | ha
+      · exact Or.inr (Or.inl ha)
+      · rcases ihl a ha with h | h
+        · exact Or.inl h
+        · exact Or.inr (Or.inr (Or.inl h))
+      · exact Or.inr (Or.inr (Or.inr ha))
+    · cases xs <;> simp only [] <;> intro a ha <;> exact Or.inr (by simpa [Node.heads] using ha)
+    · intro a ha
+      simp only [Node.heads, List.mem_cons, List.mem_append] at ha ⊢
+      rcases ha with ha | ha | ha
+      · exact Or.inr (Or.inl ha)
+      · exact Or.inr (Or.inr (Or.inl ha))
+      · rcases ihr a ha with h | h
+        · exact Or.inl h
+        · exact Or.inr (Or.inr (Or.inr h))
+
+theorem ordered_mkChain (e : Entry) (ks : Key) : (mkChain e ks).Ordered cmp := by
+  induction ks with
+  | nil => simp [mkChain, Node.Ordered, Node.heads]
+  | cons x xs ih =>
+    cases xs with
+    | nil => simp [mkChain, Node.Ordered, Node.heads]
+    | cons y ys => simp only [mkChain, Node.Ordered, Node.heads]; simp [ih]
+
+theorem ordered_insPure (e : Entry) (t : Node) (ks : Key) (hks : ks ≠ []) (ho : t.Ordered cmp) :
+    (t.insPure cmp e ks).Ordered cmp := by
+  induction t generalizing ks with
+  | nil => simp only [Node.insPure]; exact ordered_mkChain e ks
+  | node c d l m r ihl ihm ihr =>
+    obtain ⟨hl, hr, ol, om, or⟩ := ho
+    cases ks with
+    | nil => exact absurd rfl hks
+    | cons x xs =>
+      simp only [Node.insPure]
+      cases hx : cmp x c <;> simp only []
+      · refine ⟨?_, hr, ihl (x :: xs) (by simp) ol, om, or⟩
+        intro a ha
+        rcases heads_insPure e l x xs a ha with h | h
+        · rw [h]; exact hx
+        · exact hl a h
+      · cases xs with
+        | nil => exact ⟨hl, hr, ol, om, or⟩
+        | cons y ys => exact ⟨hl, hr, ol, ihm (y :: ys) (by simp) om, or⟩
+      · refine ⟨hl, ?_, ol, om, ihr (x :: xs) (by simp) or⟩
+        intro a ha
+        rcases heads_insPure e r x xs a ha with h | h
+        · rw [h]; exact hx
+        · exact hr a h
+
+theorem pruned_mkChain (e : Entry) (ks : Key) : (mkChain e ks).Pruned := by
+  induction ks with
+  | nil => simp [mkChain, Node.Pruned]
+  | cons x xs ih =>
+    cases xs with
+    | nil => simp [mkChain, Node.Pruned]
+    | cons y ys =>
+      simp only [mkChain, Node.Pruned]
+      refine ⟨?_, trivial, ih, trivial⟩
+      intro h; exact absurd ((Node.isNil_iff _).mp h.2.1) (mkChain_ne_nil e (y :: ys))
+
+theorem pruned_insPure (e : Entry) (t : Node) (ks : Key) (hp : t.Pruned) : (t.insPure cmp e ks).Pruned := by
+  induction t generalizing ks with
+  | nil => simp only [Node.insPure]; exact pruned_mkChain e ks
+  | node c d l m r ihl ihm ihr =>
+    obtain ⟨h0, pl, pm, pr⟩ := hp
+    cases ks with
+    | nil => simp only [Node.insPure, Node.Pruned]; exact ⟨by simp, pl, pm, pr⟩
+    | cons x xs =>
+      simp only [Node.insPure]
+      cases hx : cmp x c <;> simp only []
+      · refine ⟨?_, ihl (x :: xs) pl, pm, pr⟩
+        intro h; exact absurd ((Node.isNil_iff _).mp h.1) (insPure_ne_nil e l _)
+      · cases xs with
+        | nil => exact ⟨by simp, pl, pm, pr⟩
+        | cons y ys =>
+          refine ⟨?_, pl, ihm (y :: ys) pm, pr⟩
+          intro h; exact absurd ((Node.isNil_iff _).mp h.2.1) (insPure_ne_nil e m _)
+      · refine ⟨?_, pl, pm, ihr (x :: xs) pr⟩
+        intro h; exact absurd ((Node.isNil_iff _).mp h.2.2) (insPure_ne_nil e r _)
+
+/-- stored key = spelled key is kept when the key that is inserted is the one that is stored -/
+theorem keysOk_insPure (hc : CmpLaw cmp) (key : Key) (v : Nat) (t : Node) (hk : key ≠ [])
+    (ho : t.Ordered cmp) (hko : t.KeysOk) : (t.insPure cmp (key, v) key).KeysOk := by
+  intro x hx
+  have ho' := ordered_insPure (cmp := cmp) (key, v) t key hk ho
+  have h := lookup_of_mem_entries hc _ ho' x hx
+  rw [lookup_insPure hc _ _ _ _ hk (entries_key_ne_nil _ x hx)] at h
+  split at h
+  · rename_i heq; simp at h; rw [← h, heq]
+  · exact hko x (mem_entries_of_lookup hc t x.1 x.2 (entries_key_ne_nil _ x hx) h)
+
+/-! ### removal with upward pruning -/
+
+theorem lookup_eq_findPath (t : Node) (k : Key) :
+    t.lookup cmp k = (t.findPath cmp k).bind fun p => (t.sub p).data? := by
+  induction t generalizing k with
+  | nil => simp [Node.lookup, Node.findPath]
+  | node c d l m r ihl ihm ihr =>
+    cases k with
+    | nil => simp [Node.lookup, Node.findPath, Node.sub, Node.data?]
+    | cons x xs =>
+      simp only [Node.lookup, Node.findPath]
+      cases cmp x c <;> simp only []
+      · rw [ihl]; cases l.findPath cmp (x :: xs) <;> simp [Node.sub]
+      · cases xs with
+        | nil => simp [Node.sub, Node.data?]
+        | cons y ys => simp only []; rw [ihm]; cases m.findPath cmp (y :: ys) <;> simp [Node.sub]
+      · rw [ihr]; cases r.findPath cmp (x :: xs) <;> simp [Node.sub]
+
+theorem rebuild_cases (c : Nat) (d : Option Entry) (l m r : Node) (q : RemRes) :
+    ((rebuild c d l m r q).node = .nil ∧ (rebuild c d l m r q).pruned = true ∧
+        (rebuild c d l m r q).mem = q.mem.free ∧
+        q.pruned = true ∧ l = .nil ∧ m = .nil ∧ r = .nil ∧ d = none) ∨
+    ((rebuild c d l m r q).node = .node c d l m r ∧ (rebuild c d l m r q).pruned = false ∧
+        (rebuild c d l m r q).mem = q.mem ∧
+        ¬ (q.pruned = true ∧ l = .nil ∧ m = .nil ∧ r = .nil ∧ d = none)) := by
+  unfold rebuild
+  split
+  · rename_i h
+    simp only [Bool.and_eq_true, Node.isNil_iff, Option.isNone_iff_eq_none] at h
+    exact Or.inl ⟨rfl, rfl, rfl, h.1.1.1.1, h.1.1.1.2, h.1.1.2, h.1.2, h.2⟩
+  · rename_i h
+    simp only [Bool.and_eq_true, Node.isNil_iff, Option.isNone_iff_eq_none] at h
+    refine Or.inr ⟨rfl, rfl, rfl, ?_⟩
+    intro g; exact h ⟨⟨⟨⟨g.1, g.2.1⟩, g.2.2.1⟩, g.2.2.2.1⟩, g.2.2.2.2⟩
+
+@[simp] theorem rebuild_hit (c : Nat) (d : Option Entry) (l m r : Node) (q : RemRes) :
+    (rebuild c d l m r q).hit = q.hit := by unfold rebuild; split <;> rfl
+
+/-- a slot is emptied only by pruning -/
+theorem remAt_nil_pruned (t : Node) (p : Path) (mem : Mem) (h : (t.remAt p mem).node = .nil) :
+    (t.remAt p mem).pruned = true ∨ t = .nil := by
+  cases t with
+  | nil => exact Or.inr rfl
+  | node c d l m r =>
+    left
+    cases p with
+    | nil =>
+      simp only [Node.remAt] at h ⊢
+      cases d with
+      | none => simp at h
+      | some e => simp only at h ⊢; split at h <;> simp_all
+    | cons dir p =>
+      cases dir <;> simp only [Node.remAt] at h ⊢
+      · rcases rebuild_cases c d (l.remAt p mem).node m r (l.remAt p mem) with g | g
+        · exact g.2.1
+        · rw [g.1] at h; cases h
+      · rcases rebuild_cases c d l (m.remAt p mem).node r (m.remAt p mem) with g | g
+        · exact g.2.1
+        · rw [g.1] at h; cases h
+      · rcases rebuild_cases c d l m (r.remAt p mem).node (r.remAt p mem) with g | g
+        · exact g.2.1
+        · rw [g.1] at h; cases h
+
+theorem lookup_nil (k : Key) : Node.nil.lookup cmp k = none := by simp [Node.lookup]
+
+/-- **remove / lookup**: removing the key found at `p` makes exactly that key absent; pruning never
+detaches another key's path -/
+theorem lookup_remAt (hc : CmpLaw cmp) (t : Node) (k k' : Key) (p : Path) (mem : Mem) (e : Entry)
+    (hk : k ≠ []) (hk' : k' ≠ []) (hp : t.findPath cmp k = some p) (hd : (t.sub p).data? = some e) :
+    (t.remAt p mem).node.lookup cmp k' = if k' = k then none else t.lookup cmp k' := by
+  induction t generalizing k k' p with
+  | nil => simp [Node.findPath] at hp
+  | node c d l m r ihl ihm ihr =>
+    cases k with
+    | nil => exact absurd rfl hk
+    | cons x xs =>
+    cases k' with
+    | nil => exact absurd rfl hk'
+    | cons x' xs' =>
+    simp only [Node.findPath] at hp
+    cases hx : cmp x c <;> simp only [hx] at hp
+    · -- the key continues in the left subtree
+      cases hf : l.findPath cmp (x :: xs) with
+      | none => simp [hf] at hp
+      | some p' =>
+        simp [hf] at hp; subst hp
+        simp only [Node.sub] at hd
+        have ih := fun k'' hk'' => ihl (x :: xs) k'' p' (by simp) hk'' hf hd
+        simp only [Node.remAt]
+        rcases rebuild_cases c d (l.remAt p' mem).node m r (l.remAt p' mem) with g | g
+        · obtain ⟨g1, _, _, _, g2, g3, g4, g5⟩ := g
+          rw [g1, lookup_nil]
+          subst g3 g4 g5
+          simp only [Node.lookup]
+          cases hx' : cmp x' c <;> simp only []
+          · have := ih (x' :: xs') (by simp); rw [g2, lookup_nil] at this; exact this
+          · cases xs' <;> simp [Node.lookup]
+          · simp [Node.lookup]
+        · rw [g.1]
+          simp only [Node.lookup]
+          cases hx' : cmp x' c <;> simp only []
+          · exact ih (x' :: xs') (by simp)
+          · have : x' ≠ x := by intro e; subst e; rw [hx] at hx'; cases hx'
+            simp [this]
+          · have : x' ≠ x := by intro e; subst e; rw [hx] at hx'; cases hx'
+            simp [this]
+    · have hxc := (hc x c).mp hx; subst hxc
+      cases xs with
+      | nil =>
+        simp at hp; subst hp
+        simp only [Node.sub, Node.data?] at hd; subst hd
+        simp only [Node.remAt]
+        split
+        · rename_i hnil
+          simp only [Bool.and_eq_true, Node.isNil_iff] at hnil
+          obtain ⟨⟨h1, h2⟩, h3⟩ := hnil; subst h1 h2 h3
+          simp only [lookup_nil, Node.lookup]
+          cases hx' : cmp x' x <;> simp only []
+          · simp
+          · have := (hc x' x).mp hx'; subst this
+            cases xs' <;> simp [Node.lookup]
+          · simp
+        · simp only [Node.lookup]
+          cases hx' : cmp x' x <;> simp only []
+          · have := hc.ne_of_lt hx'; simp [this]
+          · have := (hc x' x).mp hx'; subst this
+            cases xs' <;> simp
+          · have := hc.ne_of_gt hx'; simp [this]
+      | cons y ys =>
+        simp only [] at hp
+        cases hf : m.findPath cmp (y :: ys) with
+        | none => simp [hf] at hp
+        | some p' =>
+          simp [hf] at hp; subst hp
+          simp only [Node.sub] at hd
+          have ih := fun k'' hk'' => ihm (y :: ys) k'' p' (by simp) hk'' hf hd
+          simp only [Node.remAt]
+          rcases rebuild_cases x d l (m.remAt p' mem).node r (m.remAt p' mem) with g | g
+          · obtain ⟨g1, _, _, _, g2, g3, g4, g5⟩ := g
+            rw [g1, lookup_nil]
+            subst g2 g4 g5
+            simp only [Node.lookup]
+            cases hx' : cmp x' x <;> simp only []
+            · simp [Node.lookup]
+            · have := (hc x' x).mp hx'; subst this
+              cases xs' with
+              | nil => simp
+              | cons y' ys' =>
+                have := ih (y' :: ys') (by simp); rw [g3, lookup_nil] at this
+                simp only []; simpa using this
+            · simp [Node.lookup]
+          · rw [g.1]
+            simp only [Node.lookup]
+            cases hx' : cmp x' x <;> simp only []
+            · have := hc.ne_of_lt hx'; simp [this]
+            · have := (hc x' x).mp hx'; subst this
+              cases xs' with
+              | nil => simp
+              | cons y' ys' => simp only []; rw [ih (y' :: ys') (by simp)]; simp
+            · have := hc.ne_of_gt hx'; simp [this]
+    · cases hf : r.findPath cmp (x :: xs) with
+      | none => simp [hf] at hp
+      | some p' =>
+        simp [hf] at hp; subst hp
+        simp only [Node.sub] at hd
+        have ih := fun k'' hk'' => ihr (x :: xs) k'' p' (by simp) hk'' hf hd
+        simp only [Node.remAt]
+        rcases rebuild_cases c d l m (r.remAt p' mem).node (r.remAt p' mem) with g | g
+        · obtain ⟨g1, _, _, _, g2, g3, g4, g5⟩ := g
+          rw [g1, lookup_nil]
+          subst g2 g3 g5
+          simp only [Node.lookup]
+          cases hx' : cmp x' c <;> simp only []
+          · simp [Node.lookup]
+          · cases xs' <;> simp [Node.lookup]
+          · have := ih (x' :: xs') (by simp); rw [g4, lookup_nil] at this; exact this
+        · rw [g.1]
+          simp only [Node.lookup]
+          cases hx' : cmp x' c <;> simp only []
+          · have : x' ≠ x := by intro e; subst e; rw [hx] at hx'; cases hx'
+            simp [this]
+          · have : x' ≠ x := by intro e; subst e; rw [hx] at hx'; cases hx'
+            simp [this]
+          · exact ih (x' :: xs') (by simp)
+
+theorem owned_node (c : Nat) (d : Option Entry) (l m r : Node) :
+    (Node.node c d l m r).owned = 1 + (if d.isSome then 1 else 0) + l.owned + m.owned + r.owned := by
+  simp only [Node.owned, Node.nodes, Node.marked]; omega
+
+@[simp] theorem owned_nil : Node.nil.owned = 0 := rfl
+
+/-- what `remove_eow_node` guarantees for a marked node: one entry less, every released block was
+owned by the tree, no fault -/
+def RemSpec (t : Node) (mem : Mem) (q : RemRes) : Prop :=
+  q.hit = true ∧ q.node.marked + 1 = t.marked ∧ q.mem.live + t.owned = mem.live + q.node.owned ∧
+  q.mem.fault = mem.fault ∧ q.mem.libc = mem.libc ∧ q.node.owned ≤ t.owned
+
+theorem RemSpec.rebuild {c : Nat} {d : Option Entry} {l m r t' : Node} {mem : Mem} {q : RemRes}
+    (old : Node) (hq : RemSpec t' mem q) (hl : old.owned ≤ mem.live)
+    (ho : old.owned = 1 + (if d.isSome then 1 else 0) + l.owned + m.owned + r.owned + t'.owned - q.node.owned)
+    (hm : old.marked + q.node.marked = (Node.node c d l m r).marked + t'.marked)
+    (hn : old.owned + q.node.owned = (Node.node c d l m r).owned + t'.owned) :
+    RemSpec old mem (CC.TST.rebuild c d l m r q) := by
+  obtain ⟨h1, h2, h3, h4, h5, h6⟩ := hq
+  rcases rebuild_cases c d l m r q with g | g
+  · obtain ⟨g1, g2, g3, g4, g5, g6, g7, g8⟩ := g
+    subst g5 g6 g7 g8
+    simp only [owned_node, owned_nil, Node.marked] at hm hn ho
+    have f := free_spec q.mem (by simp at *; omega)
+    refine ⟨by simp [h1], ?_, ?_, ?_, ?_, ?_⟩
+    · rw [g1]; simp [Node.marked] at *; omega
+    · rw [g1, g3, f.1]; simp at *; omega
+    · rw [g3, f.2.1, h4]
+    · rw [g3, f.2.2.1, h5]
+    · rw [g1]; simp
+  · obtain ⟨g1, g2, g3, g4⟩ := g
+    refine ⟨by simp [h1], ?_, ?_, ?_, ?_, ?_⟩
+    · rw [g1]; omega
+    · rw [g1, g3]; omega
+    · rw [g3, h4]
+    · rw [g3, h5]
+    · rw [g1]; omega
+
+theorem remAt_spec (t : Node) (p : Path) (mem : Mem) (e : Entry)
+    (hd : (t.sub p).data? = some e) (hl : t.owned ≤ mem.live) : RemSpec t mem (t.remAt p mem) := by
+  induction t generalizing p with
+  | nil => cases p <;> simp [Node.sub, Node.data?] at hd
+  | node c d l m r ihl ihm ihr =>
+    have hown := owned_node c d l m r
+    cases p with
+    | nil =>
+      simp only [Node.sub, Node.data?] at hd; subst hd
+      simp only [Node.remAt]
+      simp only [Option.isSome_some, if_true] at hown
+      have f1 := free_spec mem (by omega)
+      split
+      · rename_i hnil
+        simp only [Bool.and_eq_true, Node.isNil_iff] at hnil
+        obtain ⟨⟨h1, h2⟩, h3⟩ := hnil; subst h1 h2 h3
+        have f2 := free_spec mem.free (by simp at hown; omega)
+        simp only [RemSpec, Node.marked, owned_nil]
+        simp at hown
+        refine ⟨trivial, by simp, by rw [f2.1, f1.1]; omega, by rw [f2.2.1, f1.2.1], by rw [f2.2.2.1, f1.2.2.1], by omega⟩
+      · simp only [RemSpec, Node.marked]
+        have := owned_node c none l m r
+        simp at this
+        refine ⟨trivial, by simp; omega, by rw [f1.1]; omega, f1.2.1, f1.2.2.1, by omega⟩
+    | cons dir p =>
+      cases dir <;> simp only [Node.sub] at hd <;> simp only [Node.remAt]
+      · have ih := ihl p hd (by omega)
+        exact ih.rebuild _ hl (by have := ih.2.2.2.2.2; omega) (by simp only [Node.marked]; have := ih.2.1; omega)
+          (by rw [hown, owned_node]; have := ih.2.2.2.2.2; omega)
+      · have ih := ihm p hd (by omega)
+        exact ih.rebuild _ hl (by have := ih.2.2.2.2.2; omega) (by simp only [Node.marked]; have := ih.2.1; omega)
+          (by rw [hown, owned_node]; have := ih.2.2.2.2.2; omega)
+      · have ih := ihr p hd (by omega)
+        exact ih.rebuild _ hl (by have := ih.2.2.2.2.2; omega) (by simp only [Node.marked]; have := ih.2.1; omega)
+          (by rw [hown, owned_node]; have := ih.2.2.2.2.2; omega)
 end CC.TST
